@@ -1,0 +1,231 @@
+// Copyright 2026 Martin Pool.
+
+//! Verification hook: interpose on every storage operation of a [Transport].
+//!
+//! Only built with the `verif_hooks` feature. An [Interceptor] is told about
+//! every read, write, list, create_dir, metadata and remove before it reaches
+//! the real protocol, and may log it, delay it, or make it fail; and is told
+//! the outcome afterwards. Transports derived with `chdir` stay hooked.
+
+use std::path::PathBuf;
+use std::sync::Arc;
+
+use async_trait::async_trait;
+use bytes::Bytes;
+use url::Url;
+
+use super::protocol::Protocol;
+use super::record::Verb;
+use super::{DirEntry, Error, ErrorKind, Metadata, Result, Transport, WriteMode};
+
+/// One storage operation, as seen by an [Interceptor].
+#[derive(Clone, Debug)]
+pub struct Op {
+    /// Which hooked transport (chosen by the caller of `with_interceptor`) issued this.
+    pub actor: u32,
+    pub verb: Verb,
+    /// Path relative to the transport that was originally hooked.
+    pub path: String,
+    /// For writes, the mode.
+    pub write_mode: Option<WriteMode>,
+    /// For writes, the content.
+    pub payload: Option<Bytes>,
+}
+
+/// What the interceptor wants done with an operation.
+#[derive(Clone, Copy, Debug, PartialEq, Eq)]
+pub enum Decision {
+    /// Pass the operation to the underlying protocol.
+    Proceed,
+    /// Don't perform the operation; return an error of this kind.
+    Fail(ErrorKind),
+}
+
+#[async_trait]
+pub trait Interceptor: Send + Sync + 'static {
+    /// Called before the operation is performed.
+    async fn before(&self, op: &Op) -> Decision;
+
+    /// Called after the operation completed or was failed, with the number
+    /// of bytes read or written or entries listed, or the error kind.
+    async fn after(&self, op: &Op, result: std::result::Result<usize, ErrorKind>);
+}
+
+impl Transport {
+    /// Return a transport addressing the same location, with all operations on it
+    /// and on transports derived from it passed through `interceptor`.
+    #[must_use]
+    pub fn with_interceptor(self, actor: u32, interceptor: Arc<dyn Interceptor>) -> Transport {
+        Transport {
+            protocol: Arc::new(Hooked {
+                inner: Arc::clone(&self.protocol),
+                sub_path: String::new(),
+                actor,
+                interceptor,
+            }),
+            ..self
+        }
+    }
+}
+
+struct Hooked {
+    inner: Arc<dyn Protocol>,
+    /// Path of this protocol relative to the one originally hooked.
+    sub_path: String,
+    actor: u32,
+    interceptor: Arc<dyn Interceptor>,
+}
+
+impl std::fmt::Debug for Hooked {
+    fn fmt(&self, f: &mut std::fmt::Formatter<'_>) -> std::fmt::Result {
+        f.debug_struct("Hooked")
+            .field("inner", &self.inner)
+            .field("sub_path", &self.sub_path)
+            .field("actor", &self.actor)
+            .finish()
+    }
+}
+
+fn join(sub_path: &str, relpath: &str) -> String {
+    if relpath.is_empty() {
+        sub_path.to_owned()
+    } else if sub_path.is_empty() {
+        relpath.to_owned()
+    } else {
+        format!("{sub_path}/{relpath}")
+    }
+}
+
+impl Hooked {
+    fn op(&self, verb: Verb, relpath: &str) -> Op {
+        Op {
+            actor: self.actor,
+            verb,
+            path: join(&self.sub_path, relpath),
+            write_mode: None,
+            payload: None,
+        }
+    }
+
+    fn injected(&self, kind: ErrorKind) -> Error {
+        Error {
+            kind,
+            source: None,
+            url: None,
+        }
+    }
+}
+
+#[async_trait]
+impl Protocol for Hooked {
+    async fn read(&self, path: &str) -> Result<Bytes> {
+        let op = self.op(Verb::Read, path);
+        let result = match self.interceptor.before(&op).await {
+            Decision::Proceed => self.inner.read(path).await,
+            Decision::Fail(kind) => Err(self.injected(kind)),
+        };
+        self.interceptor
+            .after(&op, result.as_ref().map(|b| b.len()).map_err(|e| e.kind()))
+            .await;
+        result
+    }
+
+    async fn write(&self, relpath: &str, content: &[u8], mode: WriteMode) -> Result<()> {
+        let op = Op {
+            write_mode: Some(mode),
+            payload: Some(Bytes::copy_from_slice(content)),
+            ..self.op(Verb::Write, relpath)
+        };
+        let result = match self.interceptor.before(&op).await {
+            Decision::Proceed => self.inner.write(relpath, content, mode).await,
+            Decision::Fail(kind) => Err(self.injected(kind)),
+        };
+        self.interceptor
+            .after(
+                &op,
+                result.as_ref().map(|()| content.len()).map_err(|e| e.kind()),
+            )
+            .await;
+        result
+    }
+
+    async fn list_dir(&self, relpath: &str) -> Result<Vec<DirEntry>> {
+        let op = self.op(Verb::ListDir, relpath);
+        let result = match self.interceptor.before(&op).await {
+            Decision::Proceed => self.inner.list_dir(relpath).await,
+            Decision::Fail(kind) => Err(self.injected(kind)),
+        };
+        self.interceptor
+            .after(&op, result.as_ref().map(|l| l.len()).map_err(|e| e.kind()))
+            .await;
+        result
+    }
+
+    async fn create_dir(&self, relpath: &str) -> Result<()> {
+        let op = self.op(Verb::CreateDir, relpath);
+        let result = match self.interceptor.before(&op).await {
+            Decision::Proceed => self.inner.create_dir(relpath).await,
+            Decision::Fail(kind) => Err(self.injected(kind)),
+        };
+        self.interceptor
+            .after(&op, result.as_ref().map(|()| 0).map_err(|e| e.kind()))
+            .await;
+        result
+    }
+
+    async fn metadata(&self, relpath: &str) -> Result<Metadata> {
+        let op = self.op(Verb::Metadata, relpath);
+        let result = match self.interceptor.before(&op).await {
+            Decision::Proceed => self.inner.metadata(relpath).await,
+            Decision::Fail(kind) => Err(self.injected(kind)),
+        };
+        self.interceptor
+            .after(
+                &op,
+                result.as_ref().map(|m| m.len as usize).map_err(|e| e.kind()),
+            )
+            .await;
+        result
+    }
+
+    async fn remove_file(&self, relpath: &str) -> Result<()> {
+        let op = self.op(Verb::RemoveFile, relpath);
+        let result = match self.interceptor.before(&op).await {
+            Decision::Proceed => self.inner.remove_file(relpath).await,
+            Decision::Fail(kind) => Err(self.injected(kind)),
+        };
+        self.interceptor
+            .after(&op, result.as_ref().map(|()| 0).map_err(|e| e.kind()))
+            .await;
+        result
+    }
+
+    async fn remove_dir_all(&self, relpath: &str) -> Result<()> {
+        let op = self.op(Verb::RemoveDirAll, relpath);
+        let result = match self.interceptor.before(&op).await {
+            Decision::Proceed => self.inner.remove_dir_all(relpath).await,
+            Decision::Fail(kind) => Err(self.injected(kind)),
+        };
+        self.interceptor
+            .after(&op, result.as_ref().map(|()| 0).map_err(|e| e.kind()))
+            .await;
+        result
+    }
+
+    fn chdir(&self, relpath: &str) -> Arc<dyn Protocol> {
+        Arc::new(Hooked {
+            inner: self.inner.chdir(relpath),
+            sub_path: join(&self.sub_path, relpath),
+            actor: self.actor,
+            interceptor: Arc::clone(&self.interceptor),
+        })
+    }
+
+    fn url(&self) -> &Url {
+        self.inner.url()
+    }
+
+    fn local_path(&self) -> Option<PathBuf> {
+        self.inner.local_path()
+    }
+}
